@@ -85,6 +85,14 @@ LIBM_PURE = {"ceilf", "ceil", "floorf", "floor", "truncf", "trunc", "roundf", "r
              "fminf", "fmin", "fdimf", "fdim", "fmaf", "fma"}
 
 
+# C library functions whose meaning is that of the LLVM intrinsic of the same
+# name (the width-1 / scalar code forwards to them)
+LIBM_AS_INTR = {}
+for _n in ("sqrt", "fabs", "ceil", "floor", "trunc", "rint", "nearbyint", "round", "copysign", "fma"):
+    LIBM_AS_INTR[_n] = "llvm." + _n
+    LIBM_AS_INTR[_n + "f"] = "llvm." + _n
+
+
 class Interp:
     def __init__(self, module, isa=None):
         self.m = module
@@ -292,8 +300,9 @@ class Interp:
             a, b = V(0), V(1)
             if ins.get("fmf"):
                 S.flags.add("fastmath")
-            name = opn
-            return T.concat([T.opc(name, eb, x, y) for x, y in zip(self.lanes(a, n, eb), self.lanes(b, n, eb))])
+            if opn == "fsub":
+                return T.concat([T.fsub(eb, x, y) for x, y in zip(self.lanes(a, n, eb), self.lanes(b, n, eb))])
+            return T.concat([T.opc(opn, eb, x, y) for x, y in zip(self.lanes(a, n, eb), self.lanes(b, n, eb))])
         if opn == "fneg":
             a = V(0)
             # fneg flips the sign bit: pure bit operation
@@ -345,8 +354,15 @@ class Interp:
             a, x, i = V(0), V(1), V(2)
             if i[0] == "const":
                 k = i[2]
-                return T.concat([T.slice_(a, 0, k * eb), x, T.slice_(a, (k + 1) * eb, bits - (k + 1) * eb)]
-                                if k * eb > 0 else [x, T.slice_(a, eb, bits - eb)] if bits > eb else [x])
+                if (k + 1) * eb > bits:
+                    return T.mk("poison", bits)
+                parts = []
+                if k > 0:
+                    parts.append(T.slice_(a, 0, k * eb))
+                parts.append(x)
+                if bits - (k + 1) * eb > 0:
+                    parts.append(T.slice_(a, (k + 1) * eb, bits - (k + 1) * eb))
+                return T.concat(parts)
             return T.opaque(bits, "insertelement-var", a, x, i)
         if opn == "shufflevector":
             a, b = V(0), V(1)
@@ -451,6 +467,8 @@ class Interp:
             return T.opaque(bits or 64, "indirect") if bits else None
         if not name.startswith("llvm."):
             S.calls.append((name, args, ins.get("loc")))
+            if name in LIBM_AS_INTR:
+                return T.op("call:" + LIBM_AS_INTR[name], bits, *args)
             if name in LIBM_PURE:
                 return T.op("call:" + name, bits, *args) if bits else None
             S.flags.add("call")
